@@ -32,6 +32,14 @@ func init() {
 }
 
 func runC16(c *an.Ctx) {
+	// ---- C16-R10: builder wiring of the components this property rests on
+	c.Floor("C16-R10", 4)
+	builderWiring(c, "C16-R10", map[string][]string{
+		"initDNS|dnssvc.HandlersConfig":                {"BillStat"},
+		"initBillStat|agdservice.RefreshWorkerConfig":  nil,
+		"initBillStat|billstat.RuntimeRecorderConfig":  nil,
+		"newBillStatUploader|backendpb.BillStatConfig": nil,
+	})
 	// ---- R9: time and protocol reported for a query are this query's: request information is built per message and per server
 	c.Floor("C16-R9", 2)
 	c.Borrow("C16-R9", runC18, func(o an.Obligation) bool { return o.Rule == "C18-R5" && strings.Contains(o.Key, "serveTCPConn") })
